@@ -22,6 +22,37 @@ type ObsDS struct {
 	NextLatency     atomic.Int64 // nanoseconds added to every iterator Next
 	mu              sync.Mutex
 	open            map[*obsIter]string
+	faults          sync.Map // store id -> *readFault
+	Faulted         atomic.Int64
+}
+
+type readFault struct {
+	rels map[string]bool
+	err  error
+}
+
+// FailReads makes every read of one of the given relations in store fail with err (nil rels: clear).
+// Per store, so that cases running in parallel on one server do not disturb each other.
+func (o *ObsDS) FailReads(store string, rels []string, err error) {
+	if rels == nil {
+		o.faults.Delete(store)
+		return
+	}
+	f := &readFault{rels: map[string]bool{}, err: err}
+	for _, r := range rels {
+		f.rels[r] = true
+	}
+	o.faults.Store(store, f)
+}
+
+func (o *ObsDS) fault(store, relation string) error {
+	if v, ok := o.faults.Load(store); ok {
+		if f := v.(*readFault); f.rels[relation] {
+			o.Faulted.Add(1)
+			return f.err
+		}
+	}
+	return nil
 }
 
 // NewObsDS wraps ds.
@@ -97,6 +128,9 @@ func (o *ObsDS) Read(ctx context.Context, store string, f storage.ReadFilter, op
 	if err := o.delay(ctx); err != nil {
 		return nil, err
 	}
+	if err := o.fault(store, f.Relation); err != nil {
+		return nil, err
+	}
 	it, err := o.OpenFGADatastore.Read(ctx, store, f, opts)
 	return o.wrap("Read", it, err)
 }
@@ -104,6 +138,9 @@ func (o *ObsDS) Read(ctx context.Context, store string, f storage.ReadFilter, op
 // ReadUsersetTuples implements storage.RelationshipTupleReader.
 func (o *ObsDS) ReadUsersetTuples(ctx context.Context, store string, f storage.ReadUsersetTuplesFilter, opts storage.ReadUsersetTuplesOptions) (storage.TupleIterator, error) {
 	if err := o.delay(ctx); err != nil {
+		return nil, err
+	}
+	if err := o.fault(store, f.Relation); err != nil {
 		return nil, err
 	}
 	it, err := o.OpenFGADatastore.ReadUsersetTuples(ctx, store, f, opts)
@@ -115,6 +152,9 @@ func (o *ObsDS) ReadStartingWithUser(ctx context.Context, store string, f storag
 	if err := o.delay(ctx); err != nil {
 		return nil, err
 	}
+	if err := o.fault(store, f.Relation); err != nil {
+		return nil, err
+	}
 	it, err := o.OpenFGADatastore.ReadStartingWithUser(ctx, store, f, opts)
 	return o.wrap("ReadStartingWithUser", it, err)
 }
@@ -122,6 +162,9 @@ func (o *ObsDS) ReadStartingWithUser(ctx context.Context, store string, f storag
 // ReadUserTuple implements storage.RelationshipTupleReader.
 func (o *ObsDS) ReadUserTuple(ctx context.Context, store string, f storage.ReadUserTupleFilter, opts storage.ReadUserTupleOptions) (*openfgav1.Tuple, error) {
 	if err := o.delay(ctx); err != nil {
+		return nil, err
+	}
+	if err := o.fault(store, f.Relation); err != nil {
 		return nil, err
 	}
 	return o.OpenFGADatastore.ReadUserTuple(ctx, store, f, opts)
